@@ -543,6 +543,11 @@ class History:
         r = self.rng
         for _ in range(r.randint(1, 2)):
             ch = r.randrange(5)
+            if self.twin:
+                # in twin mode only calls whose outcome cannot depend on how far the current step
+                # got: in the single-call twin the step is complete at once, so a later step's
+                # endpoint (or a claim) would legitimately succeed there and the histories diverge
+                ch = 0
             if ch == 0 and self.users:
                 self.confirm(r.choice(self.users), 'ok')
             elif ch == 1:
@@ -551,7 +556,9 @@ class History:
                 self.call(self.some_caller(0.3), 'select', budget=r.choice(['-', 0, 1]))
             elif ch == 3:
                 self.call(self.some_caller(0.3), 'extra', budget=r.choice(['-', 0, 1]))
-            else:
+            elif not self.twin:
+                # (not in twin mode: a claim inside a step succeeds in the single-call twin, where the
+                # step is already complete, and the two histories legitimately diverge)
                 self.call(r.choice(self.users + STRANGERS), 'claim')
 
     def phase_confirm(self):
